@@ -50,9 +50,9 @@ struct pcf_value *pcf_add_value(struct pcf_type *type, int value, const char *la
 	g_l_cputh.n == 0 && g_l_getout.n == 0 && LOW_PRE && DIAG_PRE)
 /* the harness empties the logs itself (after DFCC's havoc of statics): with concrete counters
  * every log write has a constant index (MEASURED: symbolic counters cost minutes of symex) */
-#define RESET_LOGS() do { g_l_calloc.n = 0; g_l_chan_init.n = 0; g_l_track_init.n = 0; g_l_prop.n = 0; g_l_bayreg.n = 0; \
+#define RESET_LOGS() { g_l_calloc.n = 0; g_l_chan_init.n = 0; g_l_track_init.n = 0; g_l_prop.n = 0; g_l_bayreg.n = 0; \
 	g_l_connect.n = 0; g_l_prvreg.n = 0; g_l_select.n = 0; g_l_input.n = 0; g_l_pcftype.n = 0; g_l_pcfval.n = 0; \
-	g_l_cputh.n = 0; g_l_getout.n = 0; } while (0)
+	g_l_cputh.n = 0; g_l_getout.n = 0; }
 #define LOGS_FRAME CALLOC_FRAME, DIAG_FRAME
 
 /* ---- the type table as mark_create leaves it: a list of one or two types in definition
@@ -154,60 +154,67 @@ void h_init_cpu(void)
 }
 
 /* =====================================================================================
- * connect_thread_prv
+ * connect_thread_prv / connect_cpu_prv
+ *
+ * MEASURED: with every object bound by __CPROVER_is_fresh and the contract written over the
+ * access paths (emu->ext.ctx['O'] -> mark.types -> hh.next ...), evaluating the requires
+ * clauses alone takes 20-70 s of symbolic execution per clause (each macro use re-dereferences
+ * the whole chain), connect_cpu_prv does not finish in 240 s.  Therefore the HARNESS
+ * allocates the objects one by one (malloc(sizeof(T)), arbitrary content), links them, and
+ * names them in ghost pointers (g_m, g_t0, ...); the contract ties each ghost pointer to the
+ * access path ONCE (requires g_m == &EXT(emu)->mark ...) and speaks about the ghosts.
  * ===================================================================================== */
-WITNESS(connect_thread_prv);
-long long w_gindex;
-/* MEASURED: with every object bound by __CPROVER_is_fresh (untyped byte objects of 14-50 KB:
- * struct emu, thread, cpu) symbolic execution alone takes 70 s (connect_thread_prv) and
- * > 240 s (connect_cpu_prv).  For the two connect_* groups the HARNESS therefore allocates the
- * objects one by one as typed heap objects with arbitrary content (malloc(sizeof(T))) and links
- * them; the contracts state the remaining value constraints (table invariant) and that the
- * objects are readable/writable. */
 #define OBJ(p) ((p) != NULL && __CPROVER_rw_ok((p), sizeof(*(p))))
-#define TYPES_VALS(m) (((m)->ntypes == 1 || ((m)->ntypes == 2 && TYPE_WF(T1(m), m) && T1(m)->index != T0(m)->index && T1(m)->type != T0(m)->type)) && \
-	TYPE_WF(T0(m), m))
-#define EMU_WF(emu) (OBJ(emu) && OBJ((struct ovni_emu *) (emu)->ext.ctx['O']) && TYPES_VALS(OEMUM(emu)))
-/* untyped (byte) arrays: a typed symbolic-size struct chan[n] is very slow in CBMC */
+struct ovni_mark_emu *g_m; struct mark_type *g_t0, *g_t1;
+struct ovni_mark_thread *g_mth, *g_mth0, *g_mth1; struct ovni_mark_cpu *g_mcpu; struct thread *g_th0, *g_th1;
 enum { C17_CHAN_SZ = sizeof(struct chan), C17_TRACK_SZ = sizeof(struct track) };
 #define NEW(T, p) T *p = malloc(sizeof(T)); if (p == NULL) return
 /* emu with its ovni extension and a list of one or two mark types */
 #define NEW_EMU(emu) NEW(struct emu, emu); NEW(struct ovni_emu, c17_oemu); NEW(struct mark_type, c17_t0); NEW(struct mark_type, c17_t1); \
 	emu->ext.ctx['O'] = c17_oemu; c17_oemu->mark.types = c17_t0; c17_t1->hh.next = NULL; \
-	if (nondet_bool()) { c17_t0->hh.next = c17_t1; c17_oemu->mark.ntypes = 2; } else { c17_t0->hh.next = NULL; c17_oemu->mark.ntypes = 1; }
-/* thread with its ovni extension, one channel and one track per mark type */
-#define NEW_THREAD(th, n) NEW(struct thread, th); { struct ovni_thread *o_ = malloc(sizeof(struct ovni_thread)); if (o_ == NULL) return; th->ext.ctx['O'] = o_; \
-	o_->mark.channels = malloc((size_t) (n) * (size_t) C17_CHAN_SZ); o_->mark.track = malloc((size_t) (n) * (size_t) C17_TRACK_SZ); \
-	if (o_->mark.channels == NULL || o_->mark.track == NULL) return; }
-#define M_ (OEMUM(emu))
+	if (nondet_bool()) { c17_t0->hh.next = c17_t1; c17_oemu->mark.ntypes = 2; g_t1 = c17_t1; } else { c17_t0->hh.next = NULL; c17_oemu->mark.ntypes = 1; g_t1 = NULL; } \
+	g_m = &c17_oemu->mark; g_t0 = c17_t0
+/* thread with its ovni extension, one channel and one track per mark type (byte arrays: only
+ * addresses into them are taken) */
+#define NEW_THREAD(th, mth, n) NEW(struct thread, th); NEW(struct ovni_thread, th##_o); th->ext.ctx['O'] = th##_o; \
+	th##_o->mark.channels = malloc((size_t) (n) * (size_t) C17_CHAN_SZ); th##_o->mark.track = malloc((size_t) (n) * (size_t) C17_TRACK_SZ); \
+	if (th##_o->mark.channels == NULL || th##_o->mark.track == NULL) return; \
+	mth = &th##_o->mark
+/* the ghosts name exactly the objects the code reaches; table invariant on the values */
+#define TYPES_TIED(emu) (OBJ(emu) && g_m == OEMUM(emu) && OBJ(g_m) && g_t0 == g_m->types && OBJ(g_t0) && g_t1 == (struct mark_type *) g_t0->hh.next && \
+	(g_t1 == NULL || (OBJ(g_t1) && g_t1->hh.next == NULL)) && g_m->ntypes == (g_t1 == NULL ? 1 : 2) && \
+	TYPE_WF(g_t0, g_m) && (g_t1 == NULL || (TYPE_WF(g_t1, g_m) && g_t1->index != g_t0->index && g_t1->type != g_t0->type)))
+#define FOR_GT(E) (E(0, g_t0) && (g_t1 == NULL || E(1, g_t1)))
+#define W_GTYPES (w_ntypes == g_m->ntypes && w_i0 == g_t0->index && w_ct0 == (int) g_t0->ctype && \
+	(g_t1 == NULL || (w_i1 == g_t1->index && w_ct1 == (int) g_t1->ctype)))
+
+WITNESS(connect_thread_prv);
+long long w_gindex;
 /* the type's channel feeds the type's track, selected by the thread's own STATE channel */
-#define CTP_CONN(k, t) CALL_IS(g_l_connect, k, &OTHM(sth)->track[(t)->index], 1, 0, 0, &OTHM(sth)->channels[(t)->index], &sth->chan[TH_CHAN_STATE])
+#define CTP_CONN(k, t) CALL_IS(g_l_connect, k, &g_mth->track[(t)->index], 1, 0, 0, &g_mth->channels[(t)->index], &sth->chan[TH_CHAN_STATE])
 /* the track's output goes to the thread's row under the type's Paraver type; nulls are skipped */
-#define CTP_PRV(k, t) CALL_IS(g_l_prvreg, k, prv, sth->gindex, (t)->prvtype, PRV_SKIPDUPNULL, &emu->bay, OUT_OF(&OTHM(sth)->track[(t)->index]))
+#define CTP_PRV(k, t) CALL_IS(g_l_prvreg, k, prv, sth->gindex, (t)->prvtype, PRV_SKIPDUPNULL, &emu->bay, OUT_OF(&g_mth->track[(t)->index]))
 int c_connect_thread_prv(struct emu *emu, struct thread *sth, struct prv *prv)
-__CPROVER_requires(EMU_WF(emu))
-__CPROVER_requires(OBJ(sth) && OBJ((struct ovni_thread *) sth->ext.ctx['O']))
-__CPROVER_requires(__CPROVER_rw_ok(OTHM(sth)->channels, (size_t) M_->ntypes * sizeof(struct chan)))
-__CPROVER_requires(__CPROVER_rw_ok(OTHM(sth)->track, (size_t) M_->ntypes * sizeof(struct track)))
+__CPROVER_requires(TYPES_TIED(emu))
+__CPROVER_requires(OBJ(sth) && g_mth == OTHM(sth) && OBJ(g_mth))
+__CPROVER_requires(__CPROVER_rw_ok(g_mth->channels, (size_t) g_m->ntypes * sizeof(struct chan)))
+__CPROVER_requires(__CPROVER_rw_ok(g_mth->track, (size_t) g_m->ntypes * sizeof(struct track)))
 __CPROVER_requires(LOGS_PRE)
-#ifdef C17_EXP1
-__CPROVER_requires(M_->ntypes == 1)
-#endif
-__CPROVER_requires(WBIND(connect_thread_prv, W_TYPES(M_) && w_gindex == sth->gindex))
+__CPROVER_requires(WBIND(connect_thread_prv, W_GTYPES && w_gindex == sth->gindex))
 __CPROVER_assigns(LOGS_FRAME)
 __CPROVER_ensures(RV == 0 || RV == -1)
 __CPROVER_ensures((RV == 0) == (g_lowfail == OLD(g_lowfail)))
-__CPROVER_ensures(RV != 0 || (g_l_connect.n == NT(M_) && FOR_TYPES(M_, CTP_CONN)))
-__CPROVER_ensures(RV != 0 || (g_l_prvreg.n == NT(M_) && FOR_TYPES(M_, CTP_PRV)))
+__CPROVER_ensures(RV != 0 || (g_l_connect.n == NT(g_m) && FOR_GT(CTP_CONN)))
+__CPROVER_ensures(RV != 0 || (g_l_prvreg.n == NT(g_m) && FOR_GT(CTP_PRV)))
 /* Paraver type 100 + mark type */
-__CPROVER_ensures(RV != 0 || (g_l_prvreg.c[0].b == 100 + T0(M_)->type && (M_->ntypes == 1 || g_l_prvreg.c[1].b == 100 + T1(M_)->type)))
+__CPROVER_ensures(RV != 0 || (g_l_prvreg.c[0].b == 100 + g_t0->type && (g_t1 == NULL || g_l_prvreg.c[1].b == 100 + g_t1->type)))
 __CPROVER_ensures(RV == 0 || g_err > OLD(g_err))
 ;
 void h_connect_thread_prv(void)
 {
 	struct prv *prv;
 	NEW_EMU(emu);
-	NEW_THREAD(sth, c17_oemu->mark.ntypes);
+	NEW_THREAD(sth, g_mth, c17_oemu->mark.ntypes);
 	RESET_LOGS();
 	WITNESS_ON(connect_thread_prv);
 	int r = connect_thread_prv(emu, sth, prv);
@@ -216,58 +223,55 @@ void h_connect_thread_prv(void)
 	if (r != 0) REACH("refused by a lower layer");
 }
 
-/* =====================================================================================
- * connect_cpu_prv  (<= 2 types, <= 2 threads)
- * ===================================================================================== */
+/* ---- connect_cpu_prv  (<= 2 types, <= 2 threads) ---- */
 WITNESS(connect_cpu_prv);
 long w_nth; long long w_g0, w_g1, w_cpu_gindex;
-#define TH0(emu) ((emu)->system.threads)
-#define TH1(emu) ((emu)->system.threads->gnext)
-#define THREAD_OK(th, emu) (OBJ(th) && OBJ((struct ovni_thread *) (th)->ext.ctx['O']) && \
-	__CPROVER_rw_ok(OTHM(th)->channels, (size_t) OEMUM(emu)->ntypes * sizeof(struct chan)))
-#define NTH(emu) (TH1(emu) == NULL ? 1u : 2u)
+#define NTH (g_th1 == NULL ? 1u : 2u)
 /* per type k: the track is selected by the CPU's running-thread channel with the default
  * selector (NULL) over nthreads inputs ... */
-#define CCP_SEL(k, t) (CALL_IS(g_l_select, k, &OCPUM(scpu)->track[(t)->index], emu->system.nthreads, 1, 0, THCHAN_OF(scpu), NULL) && \
+#define CCP_SEL(k, t) (CALL_IS(g_l_select, k, &g_mcpu->track[(t)->index], emu->system.nthreads, 1, 0, THCHAN_OF(scpu), NULL) && \
 	CALL_IS(g_l_cputh, k, scpu, 0, 0, 0, NULL, NULL))
 /* ... input number gindex(thread) is that thread's channel of the same type ... */
-#define CCP_INP1(k, t, j, th) CALL_IS(g_l_input, (k) * NTH(emu) + (j), &OCPUM(scpu)->track[(t)->index], (th)->gindex, 0, 0, &OTHM(th)->channels[(t)->index], NULL)
-#define CCP_INP(k, t) (CCP_INP1(k, t, 0, TH0(emu)) && (TH1(emu) == NULL || CCP_INP1(k, t, 1, TH1(emu))))
+#define CCP_INP1(k, t, j, th, mth) CALL_IS(g_l_input, (k) * NTH + (j), &g_mcpu->track[(t)->index], (th)->gindex, 0, 0, &(mth)->channels[(t)->index], NULL)
+#define CCP_INP(k, t) (CCP_INP1(k, t, 0, g_th0, g_mth0) && (g_th1 == NULL || CCP_INP1(k, t, 1, g_th1, g_mth1)))
 /* ... and its output goes to the CPU's row under the type's Paraver type */
-#define CCP_PRV(k, t) CALL_IS(g_l_prvreg, k, prv, scpu->gindex, (t)->prvtype, PRV_SKIPDUPNULL, &emu->bay, OUT_OF(&OCPUM(scpu)->track[(t)->index]))
+#define CCP_PRV(k, t) CALL_IS(g_l_prvreg, k, prv, scpu->gindex, (t)->prvtype, PRV_SKIPDUPNULL, &emu->bay, OUT_OF(&g_mcpu->track[(t)->index]))
+#define THREAD_TIED(th, mth) (OBJ(th) && mth == OTHM(th) && OBJ(mth) && __CPROVER_rw_ok((mth)->channels, (size_t) g_m->ntypes * sizeof(struct chan)))
 int c_connect_cpu_prv(struct emu *emu, struct cpu *scpu, struct prv *prv)
-__CPROVER_requires(EMU_WF(emu))
-__CPROVER_requires(OBJ(scpu) && OBJ((struct ovni_cpu *) scpu->ext.ctx['O']))
-__CPROVER_requires(__CPROVER_rw_ok(OCPUM(scpu)->track, (size_t) M_->ntypes * sizeof(struct track)))
-__CPROVER_requires(THREAD_OK(TH0(emu), emu))
-__CPROVER_requires(TH1(emu) == NULL || (TH1(emu)->gnext == NULL && THREAD_OK(TH1(emu), emu)))
+__CPROVER_requires(TYPES_TIED(emu))
+__CPROVER_requires(OBJ(scpu) && g_mcpu == OCPUM(scpu) && OBJ(g_mcpu))
+__CPROVER_requires(__CPROVER_rw_ok(g_mcpu->track, (size_t) g_m->ntypes * sizeof(struct track)))
+__CPROVER_requires(g_th0 == emu->system.threads && THREAD_TIED(g_th0, g_mth0) && g_th1 == g_th0->gnext)
+__CPROVER_requires(g_th1 == NULL || (g_th1->gnext == NULL && THREAD_TIED(g_th1, g_mth1)))
 /* system.nthreads (size_t) is converted to int64_t: the number of loaded threads fits */
 __CPROVER_requires(emu->system.nthreads <= (size_t) INT64_MAX)
 __CPROVER_requires(LOGS_PRE)
-__CPROVER_requires(WBIND(connect_cpu_prv, W_TYPES(M_) && w_nth == (long) NTH(emu) && w_g0 == TH0(emu)->gindex && (TH1(emu) == NULL || w_g1 == TH1(emu)->gindex) &&
+__CPROVER_requires(WBIND(connect_cpu_prv, W_GTYPES && w_nth == (long) NTH && w_g0 == g_th0->gindex && (g_th1 == NULL || w_g1 == g_th1->gindex) &&
 	w_cpu_gindex == scpu->gindex))
 __CPROVER_assigns(LOGS_FRAME)
 __CPROVER_ensures(RV == 0 || RV == -1)
 __CPROVER_ensures((RV == 0) == (g_lowfail == OLD(g_lowfail)))
-__CPROVER_ensures(RV != 0 || (g_l_select.n == NT(M_) && g_l_cputh.n == NT(M_) && FOR_TYPES(M_, CCP_SEL)))
-__CPROVER_ensures(RV != 0 || (g_l_input.n == NT(M_) * NTH(emu) && FOR_TYPES(M_, CCP_INP)))
-__CPROVER_ensures(RV != 0 || (g_l_prvreg.n == NT(M_) && FOR_TYPES(M_, CCP_PRV)))
-__CPROVER_ensures(RV != 0 || (g_l_prvreg.c[0].b == 100 + T0(M_)->type && (M_->ntypes == 1 || g_l_prvreg.c[1].b == 100 + T1(M_)->type)))
+__CPROVER_ensures(RV != 0 || (g_l_select.n == NT(g_m) && g_l_cputh.n == NT(g_m) && FOR_GT(CCP_SEL)))
+__CPROVER_ensures(RV != 0 || (g_l_input.n == NT(g_m) * NTH && FOR_GT(CCP_INP)))
+__CPROVER_ensures(RV != 0 || (g_l_prvreg.n == NT(g_m) && FOR_GT(CCP_PRV)))
+__CPROVER_ensures(RV != 0 || (g_l_prvreg.c[0].b == 100 + g_t0->type && (g_t1 == NULL || g_l_prvreg.c[1].b == 100 + g_t1->type)))
 __CPROVER_ensures(RV == 0 || g_err > OLD(g_err))
 ;
 void h_connect_cpu_prv(void)
 {
 	struct prv *prv;
 	NEW_EMU(emu);
-	NEW_THREAD(th0, c17_oemu->mark.ntypes);
-	NEW_THREAD(th1, c17_oemu->mark.ntypes);
+	NEW_THREAD(th0, g_mth0, c17_oemu->mark.ntypes);
+	NEW_THREAD(th1, g_mth1, c17_oemu->mark.ntypes);
 	th1->gnext = NULL;
 	emu->system.threads = th0;
-	th0->gnext = nondet_bool() ? th1 : NULL;
+	g_th0 = th0;
+	if (nondet_bool()) { th0->gnext = th1; g_th1 = th1; } else { th0->gnext = NULL; g_th1 = NULL; }
 	NEW(struct cpu, scpu); NEW(struct ovni_cpu, ocpu);
 	scpu->ext.ctx['O'] = ocpu;
 	ocpu->mark.track = malloc((size_t) c17_oemu->mark.ntypes * (size_t) C17_TRACK_SZ);
 	if (ocpu->mark.track == NULL) return;
+	g_mcpu = &ocpu->mark;
 	RESET_LOGS();
 	WITNESS_ON(connect_cpu_prv);
 	int r = connect_cpu_prv(emu, scpu, prv);
